@@ -113,6 +113,12 @@ CHECKS["C16"] = dict(
   text="Every program to the depth bound ending in commit or rollback on three layouts; every call is a scheduling point so that a running flush completes before or after the next calls; reads must return the latest program-order write at any tier, each mutation is part of exactly one flush generation, generations increase with at most one in flight, and after commit / rollback and drain every flushed key has the primary's outcome and no lock of the transaction is left.",
   note=TXN_NOTE + " unistore is the only backend (the in-repo mock has no Flush / BufferBatchGet); flush and resolve concurrency 1. The memory-level PipelinedMemDB harness of DESIGN (a) is subsumed by driving the real transaction.")
 
+CHECKS["C18"] = dict(
+  engine="envx", category="model_checking", design="5/C18",
+  technique="stateless DFS over environment events (submit / answer in any order / stream drop / cancel / time-out / Close) on the real RPCClient over real gRPC on an in-memory listener with a scripted server; virtualised time and contexts inside the batch client; quiescence by scheduler metrics cross-checked with stack snapshots",
+  text="All event sequences with at most F deviation events for 2-3 (thorough 4) callers and several client configurations (concurrency limit, two connections, forwarding, async API); every call must return exactly once with its own payload or an allowed error, a stream failure must not fail calls of another stream, answered calls return, nothing stays blocked after its time-out or after Close, no panic. Level 1 of DESIGN C18: client-internal interleavings between two events are left to the Go scheduler.",
+  note="Trusted: scripted server, vtime/vctx shims injected by import rewriting of three files of internal/client, real gRPC internals (not owned; executions longer than 0.5 s are discarded and repeated, a violation needs 3 audited reproductions). A call pending until its own time-out after another stream failed is recorded as an observation only (the property promises no more).")
+
 PENDING = {}
 for p in ALL:
     if p not in CHECKS:
@@ -131,7 +137,7 @@ def main():
      },
      "engines": [
       {"name": "enum", "path": "harness/c19", "serves_properties": ["C15", "C19"], "kind_free_text": "bounded exhaustive input enumeration against laws/reference decoders"},
-      {"name": "envx", "path": "harness/c10", "serves_properties": ["C10"], "kind_free_text": "deviation-bounded enumeration of environment answers (fault scripts) on sequential code"},
+      {"name": "envx", "path": "harness/c10", "serves_properties": ["C10", "C18"], "kind_free_text": "deviation-bounded enumeration of environment answers (fault scripts) on sequential code"},
       {"name": "parksched", "path": "rt/sched", "serves_properties": ["C01", "C02", "C03", "C04", "C05", "C06", "C13", "C14", "C16"], "kind_free_text": "controlled scheduler for real goroutines parked at seam points + deviation-bounded stateless DFS (preemption / fault budgets), replay by event identity, sharded over worker processes"},
       {"name": "seqx", "path": "harness/c17", "serves_properties": ["C07", "C08", "C09", "C11", "C12", "C17", "C20"], "kind_free_text": "explicit-state BFS over operation sequences of real objects against a reference model"},
      ],
